@@ -70,6 +70,25 @@ func exactBytes(text string) []byte {
 	return b[:len(b):len(b)]
 }
 
+// callerBytes hands the text over in a buffer that this caller uses again and again: one buffer per text length,
+// without spare capacity, refilled for every call (the objects made from it do not outlive the call). A library that
+// remembers something about a buffer by its address and length remembers it about the next text too.
+var callerBufs = map[int][]byte{}
+
+func callerBytes(text string) []byte {
+	b, ok := callerBufs[len(text)]
+	if !ok {
+		if len(callerBufs) > 4096 {
+			callerBufs = map[int][]byte{}
+		}
+		b = make([]byte, len(text))
+		b = b[:len(b):len(b)]
+		callerBufs[len(text)] = b
+	}
+	copy(b, text)
+	return b
+}
+
 func ctorMode(name, text string) int { return (len(name)*7 + len(text)) % 4 }
 
 func newJSchemaVia(name, text string) *jschema.JSchema { return newJSchemaAs(name, name, text) }
@@ -225,24 +244,24 @@ func runEntries(text string, which entrySet, visit func(call)) (schemaConsumed i
 	if which&epSchema != 0 {
 		verifhook.ResetScanConsumed(verifhook.KindSchema)
 		visit(guardedSteps(verifhook.KindSchema, "JSchema.Len", text, func() (string, error) {
-			n, err := jschema.New("root", exactBytes(text)).Len()
+			n, err := jschema.New("root", callerBytes(text)).Len()
 			return strconv.Itoa(int(n)), err
 		}))
 		var accepted bool
 		visit(guarded("JSchema.Check", text, func() (string, error) {
-			err := jschema.New("root", exactBytes(text)).Check()
+			err := jschema.New("root", callerBytes(text)).Check()
 			accepted = err == nil
 			return "", err
 		}))
 		visit(guarded("JSchema.Example", text, func() (string, error) {
-			b, err := jschema.New("root", exactBytes(text)).Example()
+			b, err := jschema.New("root", callerBytes(text)).Example()
 			return string(b), err
 		}))
 		visit(guarded("JSchema.GetAST", text, func() (string, error) {
-			return astString(jschema.New("root", exactBytes(text)).GetAST())
+			return astString(jschema.New("root", callerBytes(text)).GetAST())
 		}))
 		visit(guarded("JSchema.UsedUserTypes", text, func() (string, error) {
-			l, err := jschema.New("root", exactBytes(text)).UsedUserTypes()
+			l, err := jschema.New("root", callerBytes(text)).UsedUserTypes()
 			return strings.Join(l, ","), err
 		}))
 		schemaConsumed = verifhook.ScanConsumed(verifhook.KindSchema)
@@ -251,7 +270,7 @@ func runEntries(text string, which entrySet, visit func(call)) (schemaConsumed i
 			root := jschema.New("root", rootText)
 			added := false
 			visit(guarded("JSchema.AddType", text, func() (string, error) {
-				err := root.AddType("@t", jschema.New("@t", exactBytes(text)))
+				err := root.AddType("@t", jschema.New("@t", callerBytes(text)))
 				added = err == nil
 				return "", err
 			}))
@@ -263,7 +282,7 @@ func runEntries(text string, which entrySet, visit func(call)) (schemaConsumed i
 		}
 		if accepted {
 			visit(guarded("openapi.JSchema", text, func() (string, error) {
-				s := jschema.New("root", exactBytes(text))
+				s := jschema.New("root", callerBytes(text))
 				if err := s.Check(); err != nil {
 					return "", err
 				}
@@ -293,21 +312,21 @@ func runEntries(text string, which entrySet, visit func(call)) (schemaConsumed i
 	}
 	if which&epEnum != 0 {
 		visit(guardedSteps(verifhook.KindEnum, "Enum.Len", text, func() (string, error) {
-			n, err := enum.New("@e", exactBytes(text)).Len()
+			n, err := enum.New("@e", callerBytes(text)).Len()
 			return strconv.Itoa(int(n)), err
 		}))
-		visit(guarded("Enum.Check", text, func() (string, error) { return "", enum.New("@e", exactBytes(text)).Check() }))
+		visit(guarded("Enum.Check", text, func() (string, error) { return "", enum.New("@e", callerBytes(text)).Check() }))
 		visit(guarded("Enum.Values", text, func() (string, error) {
-			vv, err := enum.New("@e", exactBytes(text)).Values()
+			vv, err := enum.New("@e", callerBytes(text)).Values()
 			return fmt.Sprint(len(vv)), err
 		}))
-		visit(guarded("Enum.GetAST", text, func() (string, error) { return astString(enum.New("@e", exactBytes(text)).GetAST()) }))
+		visit(guarded("Enum.GetAST", text, func() (string, error) { return astString(enum.New("@e", callerBytes(text)).GetAST()) }))
 		{
 			const rootText = `1 // {enum: @e}`
 			root := jschema.New("root", rootText)
 			added := false
 			visit(guarded("JSchema.AddRule", text, func() (string, error) {
-				err := root.AddRule("@e", enum.New("@e", exactBytes(text)))
+				err := root.AddRule("@e", enum.New("@e", callerBytes(text)))
 				added = err == nil
 				return "", err
 			}))
@@ -319,27 +338,27 @@ func runEntries(text string, which entrySet, visit func(call)) (schemaConsumed i
 		}
 	}
 	if which&epRegex != 0 {
-		visit(guarded("RSchema.Check", text, func() (string, error) { return "", regex.New("r", exactBytes(text)).Check() }))
+		visit(guarded("RSchema.Check", text, func() (string, error) { return "", regex.New("r", callerBytes(text)).Check() }))
 		visit(guarded("RSchema.Len", text, func() (string, error) {
-			n, err := regex.New("r", exactBytes(text)).Len()
+			n, err := regex.New("r", callerBytes(text)).Len()
 			return strconv.Itoa(int(n)), err
 		}))
 		visit(guarded("RSchema.Example", text, func() (string, error) {
-			b, err := regex.New("r", exactBytes(text)).Example()
+			b, err := regex.New("r", callerBytes(text)).Example()
 			return string(b), err
 		}))
-		visit(guarded("RSchema.GetAST", text, func() (string, error) { return astString(regex.New("r", exactBytes(text)).GetAST()) }))
-		visit(guarded("RSchema.Pattern", text, func() (string, error) { return regex.New("r", exactBytes(text)).Pattern() }))
+		visit(guarded("RSchema.GetAST", text, func() (string, error) { return astString(regex.New("r", callerBytes(text)).GetAST()) }))
+		visit(guarded("RSchema.Pattern", text, func() (string, error) { return regex.New("r", callerBytes(text)).Pattern() }))
 		visit(guarded("JSchema.AddType(regex)", text, func() (string, error) {
 			root := jschema.New("root", `"x" // {type: "@r"}`)
-			if err := root.AddType("@r", regex.New("@r", exactBytes(text))); err != nil {
+			if err := root.AddType("@r", regex.New("@r", callerBytes(text))); err != nil {
 				return "", err
 			}
 			_ = root.Check() // the example may not match the pattern: a value reason, not judged here
 			return "", nil
 		}))
 		visit(guarded("openapi.RSchema", text, func() (string, error) {
-			r := regex.New("r", exactBytes(text))
+			r := regex.New("r", callerBytes(text))
 			if err := r.Check(); err != nil {
 				return "", err
 			}
@@ -355,13 +374,13 @@ func runEntries(text string, which entrySet, visit func(call)) (schemaConsumed i
 				opts = append(opts, jdoc.AllowTrailingNonSpaceCharacters())
 				name = "Document(trailing)"
 			}
-			visit(guardedSteps(verifhook.KindJSONDoc, name+".Check", text, func() (string, error) { return "", jdoc.New("doc", exactBytes(text), opts...).Check() }))
+			visit(guardedSteps(verifhook.KindJSONDoc, name+".Check", text, func() (string, error) { return "", jdoc.New("doc", callerBytes(text), opts...).Check() }))
 			visit(guarded(name+".Len", text, func() (string, error) {
-				n, err := jdoc.New("doc", exactBytes(text), opts...).Len()
+				n, err := jdoc.New("doc", callerBytes(text), opts...).Len()
 				return strconv.Itoa(int(n)), err
 			}))
 			visit(guarded(name+".NextLexeme", text, func() (string, error) {
-				d := jdoc.New("doc", exactBytes(text), opts...)
+				d := jdoc.New("doc", callerBytes(text), opts...)
 				n := 0
 				for {
 					_, err := d.NextLexeme()
